@@ -176,6 +176,11 @@ func runC01(c *Ctx) {
 	// leaf is still open when a sibling opener arrives, fences inside fences, ...
 	shortStrings([]string{">", "- ", "```", "\n", "a", "  "}, c.Pick(6, 7), func(s string) { docs = append(docs, wdoc{s, "tokens"}) })
 	shortStrings([]string{"1. ", "~~~", "\n", "<!--", "    ", "[a]: /u", "|-"}, c.Pick(5, 6), func(s string) { docs = append(docs, wdoc{s, "tokens"}) })
+	// runes at table and encoding boundaries next to every kind of delimiter: the character classes
+	// (space, punctuation, wide) are looked up in byte-indexed tables and range lists
+	for _, d := range runeBoundaryDocs() {
+		docs = append(docs, wdoc{d, "rune-boundary"})
+	}
 	// what the generator modules of the specification enumerate
 	for _, d := range generatedDocs(c, c.Pick(12000, 200000)) {
 		docs = append(docs, wdoc{d, "generated"})
@@ -376,4 +381,43 @@ watch:
 	} else {
 		validateBlockPhase(c, "repository tests with the tag on", tps, nil)
 	}
+
+	// ---- composition (Goldmark.tla): whole conversions of a sample, every hook event
+	var plDocs []string
+	for i := 0; i < len(bpDocs); i += len(bpDocs)/c.Pick(1500, 12000) + 1 {
+		if len(bpDocs[i]) < 600 {
+			plDocs = append(plDocs, bpDocs[i])
+		}
+	}
+	convs := recordConversions(bpCfgs, plDocs, 7)
+	validatePipeline(c, "workload sample", convs, func(i int) string {
+		return fmt.Sprintf("config %s document %q", bpCfgs[i/len(plDocs)], clip(plDocs[i%len(plDocs)], 200))
+	})
+}
+
+// runeBoundaryDocs: every code point from U+007F to U+0180 (around the 256-entry byte tables) and
+// the boundaries of the UTF-8 lengths, the surrogate gap, the planes and the Unicode space /
+// punctuation blocks, placed directly before, after and between the delimiters of every inline
+// and extension construct.
+func runeBoundaryDocs() []string {
+	var rs []rune
+	for r := rune(0x7F); r <= 0x180; r++ {
+		rs = append(rs, r)
+	}
+	rs = append(rs, 0x2FF, 0x37E, 0x7FF, 0x800, 0xFFF, 0x1000, 0x1680, 0x2000, 0x200B, 0x2010, 0x2028, 0x2029, 0x202F, 0x205F, 0x2E3A, 0x3000, 0x3001, 0x30FB,
+		0xD7FF, 0xE000, 0xFE50, 0xFEFF, 0xFF01, 0xFF5E, 0xFFFD, 0xFFFE, 0xFFFF, 0x10000, 0x1F600, 0x2FFFF, 0x30000, 0xE0001, 0x10FFFF)
+	tmpl := []string{"*%s*", "%s*a*", "*a*%s", "a%s*b*%sc", "__%s__", "_%s_a", "~~%s~~", "\"%s\"", "'%s'", "%s--%s", "%s...", "[%s](%s)", "![%s](/u \"%s\")", "`%s`",
+		"# %s", "%s\n===", "|%s|\n|-|\n|%s|", "[^%s]\n\n[^%s]: %s", "%s\n: %s", "<%s@a.b>", "www.a.b/%s", "http://a.b/%s*", "- [ ] %s", "%s\\\n%s", "a\n%s", "%s\nb", "[%s]\n\n[%s]: /u",
+		"# a {#%s .%s}", "&#%d;*a*"}
+	var out []string
+	for _, r := range rs {
+		for _, t := range tmpl {
+			if strings.Contains(t, "%d") {
+				out = append(out, fmt.Sprintf(t, r))
+				continue
+			}
+			out = append(out, strings.ReplaceAll(t, "%s", string(r)))
+		}
+	}
+	return out
 }
